@@ -927,3 +927,402 @@ Proof. intro h. apply (run_sim h init spec_init sim_init). Qed.
 
 Lemma reachable_ok h : sys_ok (state_of init h).
 Proof. apply (run_sim h init spec_init sim_init). Qed.
+
+(* ================= snapshots never change ================= *)
+Lemma step_snaps_grow s o : exists l, s_snaps (fst (step s o)) = s_snaps s ++ l.
+Proof.
+  assert (H0 : exists l, s_snaps s = s_snaps s ++ l) by (exists []; now rewrite app_nil_r).
+  destruct o as [a|a v|a k v|a k|a owner|a b|a b|[a|a|i a|i a] q| |i| |i|i|i|i]; cbn [step];
+    unfold s_modify;
+    repeat match goal with
+    | |- context [w_modify ?w ?a ?f] => destruct (w_modify w a f)
+    | |- context [w_touch ?w ?a] => destruct (w_touch w a)
+    | |- context [w_peek ?h ?w ?a] => destruct (w_peek h w a) as [[? ?] ?]
+    | |- context [w_get_snapshot ?h ?w] => destruct (w_get_snapshot h w) as [[? ?] ?]
+    | |- context [w_clear_cache ?h ?w] => destruct (w_clear_cache h w)
+    | |- context [nth_error ?l ?i] => destruct (nth_error l i)
+    | |- context [is_flushed ?s ?i] => destruct (is_flushed s i)
+    end; cbn; try exact H0; eauto.
+Qed.
+
+Lemma run_snaps_grow : forall h s, exists l, s_snaps (state_of s h) = s_snaps s ++ l.
+Proof.
+  unfold state_of. induction h as [|o r IH]; intro s; cbn [run].
+  - exists []. cbn. now rewrite app_nil_r.
+  - destruct (step_snaps_grow s o) as [l1 H1]. destruct (step s o) as [s1 x]. cbn [fst] in H1.
+    destruct (IH s1) as [l2 H2]. destruct (run s1 r) as [s2 xs]. cbn [fst] in *.
+    exists (l1 ++ l2). now rewrite H2, H1, app_assoc.
+Qed.
+
+(* whatever happens later, snapshot i is the same value, and every observation of it is the same *)
+Theorem snapshot_immutable : forall s h i t,
+  nth_error (s_snaps s) i = Some t ->
+  nth_error (s_snaps (state_of s h)) i = Some t /\
+  (forall a q, snd (step (state_of s h) (ORead (TSnap i a) q)) = snd (step s (ORead (TSnap i a) q))) /\
+  (forall a q, snd (step (state_of s h) (ORead (TRO i a) q)) = snd (step s (ORead (TRO i a) q))).
+Proof.
+  intros s h i t Hn. destruct (run_snaps_grow h s) as [l Hl].
+  assert (Hn' : nth_error (s_snaps (state_of s h)) i = Some t).
+  { rewrite Hl. rewrite nth_error_app1; [exact Hn|]. apply nth_error_Some. congruence. }
+  split; [exact Hn'|]. split; intros a q; cbn [step]; now rewrite Hn, Hn'.
+Qed.
+
+(* ================= Reset restores the snapshot ================= *)
+Lemma current_snapshot_clean s :
+  (forall a e, In (a, e) (w_cache (s_ws s)) -> entry_clean e) -> current_snapshot s = w_trie (s_ws s).
+Proof.
+  intro H. unfold current_snapshot, w_get_snapshot, w_flush.
+  pose proof (flush_clean (w_cache (s_ws s)) (s_heap s) (w_trie (s_ws s)) H) as Hc.
+  destruct (flush_entries (s_heap s) (w_trie (s_ws s)) (w_cache (s_ws s))) as [[h' t'] c']. exact Hc.
+Qed.
+
+Theorem reset_restores : forall h i t, let s := state_of init h in
+  nth_error (s_snaps s) i = Some t ->
+  let s' := fst (step s (OReset i)) in
+  snd (step s (OReset i)) = RUnit /\
+  (forall a, abs (live_view (s_ws s') a) = abs_opt (am_get t a)) /\
+  (forall a q, snd (step s' (ORead (TLive a) q)) = snd (step s' (ORead (TRO i a) q))) /\
+  (forall a q, snd (step s' (ORead (TPeek a) q)) = snd (step s' (ORead (TRO i a) q))) /\
+  current_snapshot s' = t.
+Proof.
+  intros h i t s Hn s'. pose proof (reachable_ok h) as [Hw Hs]. fold s in Hw, Hs.
+  destruct (w_reset_spec (s_heap s) (s_ws s) t Hw (Forall_nth _ _ _ _ Hs Hn)) as (H1 & H2 & H3 & H4).
+  assert (Es' : s' = set_ws s (w_reset (s_ws s) t)).
+  { unfold s'. cbn [step]. now rewrite Hn. }
+  split; [cbn [step]; now rewrite Hn|]. split; [rewrite Es'; exact H3|].
+  assert (Hn' : nth_error (s_snaps s') i = Some t) by (rewrite Es'; exact Hn).
+  assert (Hro : forall a q, snd (step s' (ORead (TRO i a) q)) = read_l (abs_opt (am_get t a)) q).
+  { intros a q. cbn [step]. rewrite Hn'. cbn. rewrite read_data_abs. unfold ro_view. now destruct (am_get t a). }
+  assert (Hw' : ws_ok (s_heap s') (s_ws s')) by (rewrite Es'; exact H1).
+  split; [|split].
+  - intros a q. rewrite Hro. cbn [step].
+    pose proof (w_touch_spec (s_heap s') (s_ws s') a Hw') as Ht. cbv zeta in Ht.
+    destruct (w_touch (s_ws s') a) as [w1 st]. cbn [fst snd] in *.
+    destruct Ht as (_ & _ & _ & Hl & _). rewrite read_data_abs, Hl. rewrite Es'. cbn [s_ws set_ws]. now rewrite H3.
+  - intros a q. rewrite Hro. cbn [step].
+    pose proof (w_peek_spec (s_heap s') (s_ws s') a Hw') as Hp.
+    destruct (w_peek (s_heap s') (s_ws s') a) as [[h1 w1] d]. cbn [fst snd].
+    destruct Hp as (_ & _ & _ & _ & Hd). rewrite read_data_abs, Hd. rewrite Es'. cbn [s_ws set_ws]. now rewrite H3.
+  - rewrite current_snapshot_clean; rewrite Es'; cbn [s_ws set_ws]; [exact H2|exact H4].
+Qed.
+
+(* ================= empty = absent ================= *)
+Lemma live_view_data_ok h w a : ws_ok h w -> data_ok (live_view w a).
+Proof.
+  intros (Ht & _ & Hc). unfold live_view. destruct (am_get (w_cache w) a) as [e|] eqn:E.
+  - apply (Hc a e E).
+  - destruct (am_get (w_trie w) a) as [x|] eqn:Ex; [apply (Ht a x Ex)|apply data_ok_empty].
+Qed.
+
+Lemma current_snapshot_spec s : sys_ok s ->
+  exists l, trie_ok (s_heap s ++ l) (current_snapshot s) /\
+  forall a, abs_opt (am_get (current_snapshot s) a) = abs (live_view (s_ws s) a).
+Proof.
+  intros [Hw _]. unfold current_snapshot, w_get_snapshot.
+  pose proof (w_flush_spec (s_heap s) (s_ws s) Hw) as Hf.
+  destruct (w_flush (s_heap s) (s_ws s)) as [h' w']. cbn.
+  destruct Hf as ((l & ->) & Hw' & _ & Ht). exists l. split; [apply Hw'|exact Ht].
+Qed.
+
+Lemma trie_absent_iff_empty h t a : trie_ok h t ->
+  (snap_view t a = None <-> l_is_empty (abs_opt (am_get t a)) = true).
+Proof.
+  intro Ht. unfold snap_view. destruct (am_get t a) as [x|] eqn:Ex; cbn.
+  - destruct (Ht a x Ex) as [Hx Hne]. rewrite <- is_empty_normal by apply Hx. rewrite Hne.
+    split; discriminate.
+  - split; reflexivity.
+Qed.
+
+(* an account that is logically empty — however much it was touched — is the never-touched
+   account l_empty, and the next snapshot does not contain it *)
+Theorem empty_is_absent : forall h a, let s := state_of init h in
+  l_is_empty (abs (live_view (s_ws s) a)) = true ->
+  abs (live_view (s_ws s) a) = l_empty /\ snap_view (current_snapshot s) a = None.
+Proof.
+  intros h a s He. pose proof (reachable_ok h) as Hok. fold s in Hok.
+  split.
+  - apply l_is_empty_abs; [|exact He]. eapply live_view_data_ok. apply Hok.
+  - destruct (current_snapshot_spec s Hok) as (l & Ht & Habs).
+    apply (trie_absent_iff_empty _ _ a Ht). now rewrite Habs.
+Qed.
+
+(* in every snapshot of every history: the account snapshot is nil exactly for empty accounts *)
+Theorem snapshot_absent_iff_empty : forall h i t a, nth_error (s_snaps (state_of init h)) i = Some t ->
+  (snap_view t a = None <-> l_is_empty (abs_opt (am_get t a)) = true) /\
+  (snap_view t a = None -> abs (ro_view t a) = l_empty).
+Proof.
+  intros h i t a Hn. destruct (reachable_ok h) as [_ Hs].
+  split; [apply (trie_absent_iff_empty _ _ a (Forall_nth _ _ _ _ Hs Hn))|].
+  unfold snap_view, ro_view. now destruct (am_get t a).
+Qed.
+
+(* an account no operation of the history names is l_empty in the live state and in every snapshot *)
+Definition mentions (o : op) (a : aid) : bool :=
+  match o with
+  | OTouch a' | OSetBalance a' _ | OSetValue a' _ _ | ODelValue a' _ | OInitContract a' _
+  | OSetBlock a' _ | OSetDisable a' _ | ORead (TLive a') _ | ORead (TPeek a') _ => bytes_eqb a' a
+  | _ => false
+  end.
+
+Definition spec_untouched (sp : spec) (a : aid) : Prop :=
+  sp_cur sp a = l_empty /\ Forall (fun f : lworld => f a = l_empty) (sp_snaps sp).
+
+Lemma spec_step_untouched sp o a : spec_untouched sp a -> mentions o a = false ->
+  spec_untouched (fst (spec_step sp o)) a.
+Proof.
+  intros [Hc Hs] Hm.
+  assert (Hnth : forall i f, nth_error (sp_snaps sp) i = Some f -> f a = l_empty).
+  { intros i f Hn. rewrite Forall_forall in Hs. apply Hs. eapply nth_error_In; eauto. }
+  assert (Hput : forall a' l, bytes_eqb a' a = false ->
+            spec_untouched (mkSpec (lupd (sp_cur sp) a' l) (sp_snaps sp) (sp_flushed sp)) a).
+  { intros a' l E. split; [|exact Hs]. cbn. unfold lupd. now rewrite E. }
+  destruct o as [a'|a' v|a' k v|a' k|a' owner|a' b|a' b|[a'|a'|i a'|i a'] q| |i| |i|i|i|i];
+    cbn [spec_step mentions] in *; try (now apply Hput); try (split; assumption).
+  - destruct (l_isc (sp_cur sp a')); [split; assumption|now apply Hput].
+  - destruct (nth_error (sp_snaps sp) i); split; assumption.
+  - destruct (nth_error (sp_snaps sp) i); split; assumption.
+  - split; [exact Hc|]. cbn. apply Forall_app. split; [exact Hs|]. constructor; [exact Hc|constructor].
+  - destruct (nth_error (sp_snaps sp) i) as [f|] eqn:En; [|split; assumption].
+    split; [|exact Hs]. cbn. eauto.
+  - destruct (nth_error (sp_snaps sp) i); split; assumption.
+  - destruct (nth_error (sp_snaps sp) i) as [f|] eqn:En; [|split; assumption].
+    destruct (sp_is_flushed sp i); [|split; assumption]. split; [|exact Hs]. cbn. eauto.
+  - destruct (nth_error (sp_snaps sp) i) as [f|] eqn:En; [|split; assumption].
+    split; [|exact Hs]. cbn. eauto.
+  - destruct (nth_error (sp_snaps sp) i) as [f|] eqn:En; [|split; assumption].
+    destruct (sp_is_flushed sp i); [|split; assumption]. split; [exact Hc|]. cbn.
+    apply Forall_app. split; [exact Hs|]. constructor; [eauto|constructor].
+Qed.
+
+Lemma spec_run_untouched : forall h sp a, spec_untouched sp a -> Forall (fun o => mentions o a = false) h ->
+  spec_untouched (fst (spec_run sp h)) a.
+Proof.
+  induction h as [|o r IH]; intros sp a Hu Hm; [exact Hu|]. inversion Hm; subst.
+  cbn [spec_run]. pose proof (spec_step_untouched sp o a Hu H1) as H.
+  destruct (spec_step sp o) as [sp1 x]. cbn [fst] in H. specialize (IH sp1 a H H2).
+  destruct (spec_run sp1 r) as [sp2 xs]. exact IH.
+Qed.
+
+Theorem never_touched_is_empty : forall h a, Forall (fun o => mentions o a = false) h ->
+  let s := state_of init h in
+  abs (live_view (s_ws s) a) = l_empty /\
+  forall i t, nth_error (s_snaps s) i = Some t -> snap_view t a = None.
+Proof.
+  intros h a Hm s. destruct (run_sim h init spec_init sim_init) as [_ (Hok & Hcur & Hsn & _)].
+  assert (Hu : spec_untouched (fst (spec_run spec_init h)) a).
+  { apply spec_run_untouched; [|exact Hm]. split; [reflexivity|constructor]. }
+  destruct Hu as [Hc Hs]. split; [unfold s, state_of; now rewrite Hcur|].
+  intros i t Hn. unfold s, state_of in Hn. destruct (Forall2_nth_some _ _ _ _ _ Hsn Hn) as (f & Hf & Hr).
+  destruct Hok as [_ Hts]. apply (trie_absent_iff_empty _ _ a (Forall_nth _ _ _ _ Hts Hn)).
+  rewrite (Hr a). rewrite Forall_forall in Hs. rewrite (Hs f); [reflexivity|]. eapply nth_error_In; eauto.
+Qed.
+
+(* ================= logical equality, decided ================= *)
+Lemma l_equiv_refl x : l_equiv x x.
+Proof. repeat split. Qed.
+
+Lemma l_equiv_of_eq x y : x = y -> l_equiv x y.
+Proof. intros ->. apply l_equiv_refl. Qed.
+
+Lemma store_equivb_spec m1 m2 : store_equivb m1 m2 = true <-> forall k, am_get m1 k = am_get m2 k.
+Proof.
+  unfold store_equivb. rewrite forallb_forall. split.
+  - intros H k. destruct (am_get m1 k) as [v|] eqn:E1.
+    + specialize (H k). rewrite E1 in H. apply opt_bytes_eqb_eq, H.
+      apply in_or_app. left. eapply am_get_some_in_keys; eauto.
+    + destruct (am_get m2 k) as [v|] eqn:E2; [|reflexivity].
+      specialize (H k). rewrite E1, E2 in H. apply opt_bytes_eqb_eq, H.
+      apply in_or_app. right. eapply am_get_some_in_keys; eauto.
+  - intros H k _. apply opt_bytes_eqb_eq, H.
+Qed.
+
+Lemma l_equivb_spec x y : l_equivb x y = true <-> l_equiv x y.
+Proof.
+  unfold l_equivb, l_equiv. rewrite !andb_true_iff, Z.eqb_eq, N.eqb_eq, Bool.eqb_true_iff,
+    opt_bytes_eqb_eq, store_equivb_spec. tauto.
+Qed.
+
+Lemma trie_equivb_spec t1 t2 : trie_equivb t1 t2 = true <-> trie_equiv t1 t2.
+Proof.
+  unfold trie_equivb, trie_equiv. rewrite forallb_forall. split.
+  - intros H a. destruct (am_get t1 a) as [x|] eqn:E1.
+    + rewrite <- E1. apply l_equivb_spec, H. apply in_or_app. left. eapply am_get_some_in_keys; eauto.
+    + destruct (am_get t2 a) as [y|] eqn:E2; [|apply l_equiv_refl].
+      rewrite <- E1, <- E2. apply l_equivb_spec, H. apply in_or_app. right. eapply am_get_some_in_keys; eauto.
+  - intros H a _. apply l_equivb_spec, H.
+Qed.
+
+(* ================= the state hash ================= *)
+Section HashProofs.
+  Variable hash : Type.
+  Variable leaf : Type.
+  Variable store_root : smap -> hash.
+  Variable acct_leaf : Z -> bool -> option bytes -> N -> option hash -> leaf.
+  Variable world_root : amap leaf -> hash.
+
+  (* C17 (C17_root_canonical): the root of a trie is a function of its content, not of the
+     order of the operations that built it.  Stated for both tries. *)
+  Hypothesis store_root_canonical : forall m1 m2 : smap,
+    (forall k, am_get m1 k = am_get m2 k) -> store_root m1 = store_root m2.
+  Hypothesis world_root_canonical : forall l1 l2 : amap leaf,
+    (forall a, am_get l1 a = am_get l2 a) -> world_root l1 = world_root l2.
+
+  Notation leaf_of := (leaf_of hash leaf store_root acct_leaf).
+  Notation state_hash := (state_hash hash leaf store_root acct_leaf world_root).
+
+  Lemma leaf_equiv d1 d2 : store_normal d1 -> store_normal d2 ->
+    l_equiv (abs d1) (abs d2) -> leaf_of d1 = leaf_of d2.
+  Proof.
+    destruct d1 as [b1 s1 c1 o1 f1], d2 as [b2 s2 c2 o2 f2]. unfold store_normal, l_equiv, leaf_of. cbn.
+    intros N1 N2 (-> & -> & -> & -> & Hs). f_equal.
+    destruct s1 as [m1|], s2 as [m2|]; cbn in *.
+    - f_equal. now apply store_root_canonical.
+    - exfalso. apply N1. f_equal. apply am_all_none. exact Hs.
+    - exfalso. apply N2. f_equal. apply am_all_none. intro k. now rewrite <- Hs.
+    - reflexivity.
+  Qed.
+
+  Lemma l_equiv_empty_is_empty d : store_normal d -> l_equiv (abs d) l_empty -> is_empty d = true.
+  Proof.
+    intros Hn (H1 & H2 & _ & H4 & H5). rewrite is_empty_normal by assumption.
+    unfold l_is_empty. rewrite H1, H2, H4. rewrite (am_all_none (l_store (abs d))); [reflexivity|exact H5].
+  Qed.
+
+  Lemma l_equiv_sym x y : l_equiv x y -> l_equiv y x.
+  Proof. intros (H1 & H2 & H3 & H4 & H5). repeat split; auto. Qed.
+
+  (* two well-formed account tries with the same logical contents have the same hash *)
+  Lemma state_hash_ext h1 h2 t1 t2 : trie_ok h1 t1 -> trie_ok h2 t2 -> trie_equiv t1 t2 ->
+    state_hash t1 = state_hash t2.
+  Proof.
+    intros H1 H2 He. unfold Model_WorldState.state_hash. apply world_root_canonical. intro a.
+    rewrite !(am_get_mapi (fun _ x => leaf_of (sdata x))).
+    specialize (He a). destruct (am_get t1 a) as [x|] eqn:E1, (am_get t2 a) as [y|] eqn:E2; cbn in *.
+    - f_equal. apply leaf_equiv; [apply (H1 a x E1)|apply (H2 a y E2)|exact He].
+    - exfalso. destruct (H1 a x E1) as [Hx Hne].
+      rewrite (l_equiv_empty_is_empty (sdata x)) in Hne; [discriminate|apply Hx|exact He].
+    - exfalso. destruct (H2 a y E2) as [Hy Hne].
+      rewrite (l_equiv_empty_is_empty (sdata y)) in Hne; [discriminate|apply Hy|now apply l_equiv_sym].
+    - reflexivity.
+  Qed.
+
+  (* any two snapshots of any two histories *)
+  Theorem hash_canonical_snapshots : forall h1 h2 i j t1 t2,
+    nth_error (s_snaps (state_of init h1)) i = Some t1 ->
+    nth_error (s_snaps (state_of init h2)) j = Some t2 ->
+    trie_equiv t1 t2 -> state_hash t1 = state_hash t2.
+  Proof.
+    intros h1 h2 i j t1 t2 N1 N2 He.
+    destruct (reachable_ok h1) as [_ S1]. destruct (reachable_ok h2) as [_ S2].
+    eapply state_hash_ext; [apply (Forall_nth _ _ _ _ S1 N1)|apply (Forall_nth _ _ _ _ S2 N2)|exact He].
+  Qed.
+
+  (* any two histories that end in the same logical contents *)
+  Theorem hash_canonical : forall h1 h2,
+    let s1 := state_of init h1 in let s2 := state_of init h2 in
+    (forall a, l_equiv (abs (live_view (s_ws s1) a)) (abs (live_view (s_ws s2) a))) ->
+    state_hash (current_snapshot s1) = state_hash (current_snapshot s2).
+  Proof.
+    intros h1 h2 s1 s2 He.
+    destruct (current_snapshot_spec s1 (reachable_ok h1)) as (l1 & T1 & A1).
+    destruct (current_snapshot_spec s2 (reachable_ok h2)) as (l2 & T2 & A2).
+    eapply state_hash_ext; [exact T1|exact T2|]. intro a. rewrite A1, A2. apply He.
+  Qed.
+
+  (* the order in which flushAccountCacheInLock walks the Go map is immaterial *)
+  Theorem flush_order_irrelevant : forall h t c c',
+    Permutation c c' -> NoDup (map fst c) -> trie_ok h t ->
+    (forall a e, In (a, e) c -> entry_ok h t a e) ->
+    let t1 := snd (fst (flush_entries h t c)) in let t2 := snd (fst (flush_entries h t c')) in
+    trie_equiv t1 t2 /\ state_hash t1 = state_hash t2.
+  Proof.
+    intros h t c c' Hp Hnd Ht Hc t1 t2.
+    assert (Hnd' : NoDup (map fst c')) by (eapply Permutation_NoDup; [apply Permutation_map, Hp|exact Hnd]).
+    assert (Hc' : forall a e, In (a, e) c' -> entry_ok h t a e).
+    { intros a e Hin. apply Hc. eapply Permutation_in; [apply Permutation_sym, Hp|exact Hin]. }
+    pose proof (flush_entries_spec c h t Hnd Ht Hc) as S1.
+    pose proof (flush_entries_spec c' h t Hnd' Ht Hc') as S2.
+    unfold t1, t2. destruct (flush_entries h t c) as [[ha ta] ca]. destruct (flush_entries h t c') as [[hb tb] cb].
+    cbn [fst snd]. destruct S1 as ((la & ->) & Ta & _ & _ & _ & _ & Oa & Aa).
+    destruct S2 as ((lb & ->) & Tb & _ & _ & _ & _ & Ob & Ab).
+    assert (He : trie_equiv ta tb).
+    { intro a. destruct (am_get c a) as [e|] eqn:E.
+      - apply am_get_in in E. rewrite (Aa a e E). rewrite (Ab a e); [apply l_equiv_refl|].
+        eapply Permutation_in; eauto.
+      - apply am_get_none_notin in E. rewrite (Oa a E). rewrite (Ob a); [apply l_equiv_refl|].
+        intro Hin. apply E. eapply Permutation_in; [apply Permutation_sym, Permutation_map, Hp|exact Hin]. }
+    split; [exact He|]. eapply state_hash_ext; eauto.
+  Qed.
+End HashProofs.
+
+(* the hypotheses are satisfiable by a non-constant root: the values under a fixed probe key *)
+Example root_hypotheses_inhabited :
+  let store_root := fun m : smap => am_get m [1] in
+  let world_root := fun l : amap (Z * option (option bytes)) => (am_get l [1], am_get l [2]) in
+  (forall m1 m2 : smap, (forall k, am_get m1 k = am_get m2 k) -> store_root m1 = store_root m2) /\
+  (forall l1 l2, (forall a, am_get l1 a = am_get l2 a) -> world_root l1 = world_root l2) /\
+  store_root [([1], [7])] <> store_root [].
+Proof. cbn. split; [auto|]. split; [intros l1 l2 H; now rewrite !H|discriminate]. Qed.
+
+(* ================= non-vacuity ================= *)
+Definition exA : aid := [10]. Definition exB : aid := [11]. Definition exK : bytes := [1].
+
+Definition ex_hist : list op :=
+  [OSetBalance exA 5; OSetValue exA exK [7]; OGetSnapshot;
+   OSetBalance exA 0; ODelValue exA exK; OTouch exB; OGetSnapshot;
+   OReset 0; OGetSnapshot; OFlush 2; OClearCache; OReload 2; OGetSnapshot].
+
+(* snapshot 0 holds the account; snapshot 1 (account emptied, another one only touched) holds
+   nothing; after Reset 0 the next snapshot is snapshot 0 again; so is the one after reload *)
+Example ex_history :
+  let s := state_of init ex_hist in
+  length (s_snaps s) = 4%nat /\
+  option_map (fun t => snap_view t exA) (nth_error (s_snaps s) 0) =
+    Some (Some (mkA 5 (Some [(exK, [7])]) false None 0)) /\
+  nth_error (s_snaps s) 1 = Some [] /\
+  nth_error (s_snaps s) 2 = nth_error (s_snaps s) 0 /\
+  nth_error (s_snaps s) 3 = nth_error (s_snaps s) 0 /\
+  outs_of init (ex_hist ++ [ORead (TSnap 1 exA) QBalance; ORead (TRO 1 exA) QBalance; ORead (TLive exA) (QValue exK)]) =
+    [RUnit; RVal None; RUnit; RUnit; RVal (Some [7]); RUnit; RUnit; RUnit; RUnit; RUnit; RUnit; RUnit; RUnit;
+     RNil; RBal 0; RVal (Some [7])].
+Proof. vm_compute. repeat split. Qed.
+
+(* two histories, different order, noise, ClearCache: different tries as lists, same logical content *)
+Definition ex_h1 : list op :=
+  [OSetBalance exA 5; OSetValue exA [1] [7]; OSetValue exA [2] [8]; OSetBalance exB 9].
+Definition ex_h2 : list op :=
+  [OTouch [12]; OSetBalance exB 1; OSetValue exA [2] [8]; OGetSnapshot; OSetValue exA [3] [9]; OClearCache;
+   OSetValue exA [1] [7]; ODelValue exA [3]; OSetBalance exB 9; OSetBalance exA 5; OSetBalance [12] 0].
+
+Example ex_canonical :
+  let t1 := current_snapshot (state_of init ex_h1) in let t2 := current_snapshot (state_of init ex_h2) in
+  t1 <> t2 /\ trie_equiv t1 t2 /\
+  (forall a, l_equiv (abs (live_view (s_ws (state_of init ex_h1)) a)) (abs (live_view (s_ws (state_of init ex_h2)) a))).
+Proof.
+  cbv zeta. split; [vm_compute; discriminate|].
+  assert (He : trie_equiv (current_snapshot (state_of init ex_h1)) (current_snapshot (state_of init ex_h2))).
+  { apply trie_equivb_spec. vm_compute. reflexivity. }
+  split; [exact He|]. intro a.
+  destruct (current_snapshot_spec _ (reachable_ok ex_h1)) as (_ & _ & A1).
+  destruct (current_snapshot_spec _ (reachable_ok ex_h2)) as (_ & _ & A2).
+  rewrite <- A1, <- A2. apply He.
+Qed.
+
+(* an account that was touched and emptied: logically empty, hence absent *)
+Example ex_empty :
+  let s := state_of init [OSetBalance exA 5; OSetValue exA exK [7]; OSetBalance exA 0; ODelValue exA exK] in
+  l_is_empty (abs (live_view (s_ws s) exA)) = true /\ live_view (s_ws s) exA <> empty_data.
+Proof. vm_compute. split; [reflexivity|discriminate]. Qed.
+
+Example ex_never_touched : Forall (fun o => mentions o [12] = false) ex_hist.
+Proof. repeat constructor. Qed.
+
+Example ex_flush_order :
+  let c := [(exA, mkE (dirty (mkA 5 None false None 0)) None); (exB, mkE (dirty (mkA 0 (Some []) false None 0)) None)] in
+  Permutation c (rev c) /\ NoDup (map fst c) /\ trie_ok [] [] /\ (forall a e, In (a, e) c -> entry_ok [] [] a e).
+Proof.
+  cbv zeta. split; [apply Permutation_rev|]. split.
+  { constructor; [cbn; intros [H|[]]; discriminate|constructor; [intros []|constructor]]. }
+  split; [apply trie_ok_nil|]. intros a e [H|[H|[]]]; inversion H; subst; (split; [apply astate_ok_dirty|reflexivity]);
+    (split; cbn; [|reflexivity]); intros m Hm; inversion Hm; subst; try apply vals_ok_nil.
+Qed.
